@@ -11,6 +11,13 @@ def main():
         for b in bad:
             print('output format %d: %s' % b)
         sys.exit(1 if bad else 0)
+    if sys.argv[1] == 'stdout':
+        from .C14c import native_stdout_probe, cout_census
+        bad, n = native_stdout_probe()
+        print('%d runs of the real program (three examples, output formats 0, 1, 4, verbose 0/1)' % n)
+        for b in bad:
+            print(b)
+        sys.exit(1 if bad else 0)
     sys.exit(2)
 
 
